@@ -36,6 +36,24 @@ class D(B, M):
 
 TYPES = [A, B, C, X]
 DIAMOND = [A, B, M, D]
+
+
+def _flavoured(ns):
+    """the chain universe again, with unusual instances (falsy / empty / equal to everything)"""
+    a = type('A', (), dict(ns))
+    b = type('B', (a,), {})
+    c = type('C', (b,), {})
+    x = type('X', (), dict(ns))
+    return [a, b, c, x]
+
+
+UNIVERSES = {
+    'chain': TYPES,
+    'diamond': DIAMOND,
+    'falsy': _flavoured({'__bool__': lambda self: False}),
+    'empty': _flavoured({'__len__': lambda self: 0}),
+    'all-equal': _flavoured({'__eq__': lambda self, other: True, '__hash__': lambda self: 7}),
+}
 IDS = [1, 2, 'k']           # 1 and 2 are the ids count(1) will produce, 'k' a non-int hashable
 
 
@@ -116,9 +134,9 @@ def pick_types(sp, types, label):
 
 
 def h_world(sp, n_ids=2, n_types=3, build=True, steps=1, ops_ids=3, universe='chain'):
-    types = (DIAMOND if universe == 'diamond' else TYPES)[:n_types]
-    if universe == 'diamond':
-        sp.cover('diamond-universe')
+    types = UNIVERSES[universe][:n_types]
+    if universe != 'chain':
+        sp.cover(universe + '-universe')
     ids = IDS[:max(n_ids, ops_ids)]
     w = World()
     m = Model()
@@ -249,6 +267,12 @@ TIERS = {
         ('world', dict(n_ids=0, n_types=3, build=False, steps=2, ops_ids=2)),
         ('world', dict(n_ids=1, n_types=4, build=True, steps=1, ops_ids=1, universe='diamond'),
          dict(required=['replace', 'remove', 'diamond-universe'])),
+        ('world', dict(n_ids=1, n_types=3, build=True, steps=1, ops_ids=2, universe='falsy'),
+         dict(required=['replace', 'remove', 'falsy-universe'])),
+        ('world', dict(n_ids=1, n_types=3, build=True, steps=1, ops_ids=2, universe='empty'),
+         dict(required=['replace', 'remove', 'empty-universe'])),
+        ('world', dict(n_ids=1, n_types=3, build=True, steps=1, ops_ids=2, universe='all-equal'),
+         dict(required=['replace', 'remove', 'all-equal-universe'])),
     ],
     'thorough': [
         ('world', dict(n_ids=3, n_types=3, build=True, steps=1)),
@@ -257,6 +281,10 @@ TIERS = {
         ('world', dict(n_ids=0, n_types=4, build=False, steps=3, ops_ids=3)),
         ('world', dict(n_ids=0, n_types=2, build=False, steps=4, ops_ids=2)),
         ('world', dict(n_ids=2, n_types=4, build=True, steps=1, ops_ids=2, universe='diamond')),
+        ('world', dict(n_ids=2, n_types=3, build=True, steps=1, ops_ids=2, universe='falsy')),
+        ('world', dict(n_ids=2, n_types=3, build=True, steps=1, ops_ids=2, universe='empty')),
+        ('world', dict(n_ids=2, n_types=3, build=True, steps=1, ops_ids=2, universe='all-equal')),
+        ('world', dict(n_ids=0, n_types=3, build=False, steps=3, ops_ids=2, universe='falsy')),
     ],
 }
 BUDGET_S = {'quick': 120, 'thorough': 1500}
